@@ -755,8 +755,16 @@ def compute_certs(pg):
             nr, prev = nr + 1, t["number"]
     c["nRanges"] = nr
     c["notes"] = notes
-    with open(cache, "w") as f:
+    for old in os.listdir(WORK):
+        if re.fullmatch(r"certs_[0-9a-f]+\.json", old):
+            try:
+                os.unlink(os.path.join(WORK, old))
+            except OSError:
+                pass
+    tmp = cache + f".{os.getpid()}.tmp"
+    with open(tmp, "w") as f:
         json.dump(c, f)
+    os.replace(tmp, cache)
     return c
 
 
